@@ -202,3 +202,21 @@ def to_fraction(q):
     from fractions import Fraction
 
     return Fraction(int(q[0]), int(q[1]))
+
+
+def rational_block(key: int, shape, max_num: int = 50, max_den: int = 12, allow_zero: bool = False):
+    """object ndarray of Fractions, a pure function of the drawn integer key (Philox)."""
+    from fractions import Fraction
+
+    rng = np.random.Generator(np.random.Philox(key=int(key)))
+    n = int(np.prod(shape))
+    num = rng.integers(1, max_num + 1, size=n) * rng.choice([-1, 1], size=n)
+    if allow_zero:
+        num = num * (rng.integers(0, 8, size=n) > 0)
+    den = rng.integers(1, max_den + 1, size=n)
+    out = np.empty(n, dtype=object)
+    out[:] = [Fraction(int(a), int(b)) for a, b in zip(num, den)]
+    return out.reshape(shape)
+
+
+block_keys = st.integers(min_value=0, max_value=2**32 - 1)
